@@ -600,7 +600,8 @@ func NewPackage(pkgPath string, pkg *ast.Package, conf *Config) (p *gogen.Packag
 	}
 
 	gofiles := make([]*ast.File, 0, len(pkg.GoFiles))
-	for _, gof := range pkg.GoFiles {
+	for _, gofile := range sortedKeys(pkg.GoFiles) { // sorted: the output must not depend on map order
+		gof := pkg.GoFiles[gofile]
 		f := fromgo.ASTFile(gof, 0)
 		gofiles = append(gofiles, f)
 		ctx := &blockCtx{
@@ -669,9 +670,22 @@ func isOverloadFunc(name string) bool {
 	return n > 3 && name[n-3:n-1] == "__"
 }
 
+// sortedKeys returns the keys of m in increasing order.
+func sortedKeys[V any](m map[string]V) []string {
+	keys := make([]string, 0, len(m))
+	for k := range m {
+		keys = append(keys, k)
+	}
+	sort.Strings(keys)
+	return keys
+}
+
 func initGopPkg(ctx *pkgCtx, pkg *gogen.Package, gopSyms map[string]bool) {
-	for name, f := range ctx.syms {
-		if gopSyms[name] {
+	// iterate in sorted order: loading a symbol may report errors and may load (and emit)
+	// other symbols on demand, so the order must not depend on map iteration.
+	for _, name := range sortedKeys(ctx.syms) {
+		f, ok := ctx.syms[name]
+		if !ok || gopSyms[name] { // !ok: already loaded (and removed) on demand
 			continue
 		}
 		if _, ok := f.(*typeLoader); ok {
